@@ -2,6 +2,7 @@ import ParryModel.Field
 import ParryModel.C08.Lemmas
 import ParryModel.C08.RefitLemmas
 import ParryModel.C08.TrackedLemmas
+import ParryModel.C08.LinkLemmas
 /-!
 # C08 property theorems: the QBVH stays valid under any history
 
@@ -319,6 +320,86 @@ theorem history_valid_after_refit (ops : List (Op K)) (m : K) (w' : World K) :
   exact ⟨hf.inv, hb m rfl⟩
 
 end boxes
+
+/-! ## Traversals: a valid tree loses no leaf (link to the C07 theorems) -/
+section traversal
+variable {K : Type} [Field K] [LinearOrder K] [IsStrictOrderedRing K] (sq : K → K)
+include sq
+open Model.Bvh
+
+/-- **Every live leaf is reachable, removed leaves are not.**  In a state satisfying `Inv`, the leaves of the tree
+unfolded from the root (`lanesOf q fuel 0`, what every traversal walks) are exactly the attached proxies: each attached
+proxy occurs (under the box of its lane) as soon as the fuel exceeds its depth, and every leaf of the unfolded tree is
+an attached proxy — a proxy detached by `remove` never occurs. -/
+theorem leaves_are_live_proxies (q : Q K) :
+    letI := fieldNum K sq
+    Inv q →
+    (∃ d : Nat → Nat, ∀ (p : Nat) (pr : Proxy), q.proxies[p]? = some pr → pr.node ≠ MAXN →
+      ∃ (nd : Node K) (bx : Aabb3 K), q.nodes[pr.node]? = some nd ∧ nd.boxes[pr.lane]? = some bx ∧
+        ∀ fuel : Nat, d pr.node < fuel → (bx, pr.data) ∈ Tree.leavesList (lanesOf q fuel 0)) ∧
+    (∀ (fuel : Nat) (bx : Aabb3 K) (dt : Nat), (bx, dt) ∈ Tree.leavesList (lanesOf q fuel 0) →
+      ∃ (p : Nat) (pr : Proxy), q.proxies[p]? = some pr ∧ pr.node ≠ MAXN ∧ pr.data = dt) := by
+  letI := fieldNum K sq
+  intro h
+  refine ⟨live_leaf_in_tree q h, ?_⟩
+  intro fuel bx dt hm
+  cases fuel with
+  | zero => simp [lanesOf, Tree.leavesList] at hm
+  | succ f =>
+    -- a non-empty unfolding means the root exists, and the root is live
+    have hpos : 0 < q.nodes.size := by
+      cases hq : q.nodes[0]? with
+      | none => simp [lanesOf, hq, Tree.leavesList] at hm
+      | some nd => exact (Array.getElem?_eq_some_iff.mp hq).1
+    have hlive : Live q 0 := by
+      rcases h.root with h0 | ⟨_, hl⟩
+      · omega
+      · exact hl
+    obtain ⟨p, pr, _, hpr, hne, hd, _⟩ := tree_leaf_attached q h (f + 1) 0 hlive hpos bx dt hm
+    exact ⟨p, pr, hpr, hne, hd⟩
+
+/-- **`traversal_complete`: after refit no traversal can miss a leaf.**  In a state satisfying `Inv` and `BoxInv`, for
+every visitor predicate on boxes that is monotone for containment (true on a box ⇒ true on every box containing it —
+ray hit, overlap with a query box, distance below a bound, …): every attached leaf whose *current* box satisfies the
+predicate is reported by the depth-first traversal of the unfolded tree (C07 `dfs_complete`), for every fuel above the
+leaf's depth. -/
+theorem traversal_complete (q : Q K) (cur : Nat → Aabb3 K) (pred : Aabb3 K → Bool) :
+    letI := fieldNum K sq
+    Inv q → BoxInv q cur → C07.MonotonePred (fun a b : Aabb3 K => boxContains a b = true) pred →
+    ∃ d : Nat → Nat, ∀ (p : Nat) (pr : Proxy), q.proxies[p]? = some pr → pr.node ≠ MAXN →
+      pred (cur pr.data) = true → ∀ fuel : Nat, d pr.node < fuel →
+        pr.data ∈ Tree.dfsList pred (lanesOf q fuel 0) := by
+  letI := fieldNum K sq
+  intro h hb hm
+  obtain ⟨d, hd⟩ := live_leaf_in_tree q h
+  refine ⟨d, ?_⟩
+  intro p pr hpr hne hp fuel hf
+  obtain ⟨nd, bx, hnd, hbx, hin⟩ := hd p pr hpr hne
+  obtain ⟨plive, nd', hnd', hleaf, hch⟩ := h.proxyLeaf p pr hpr hne
+  rw [hnd] at hnd'; cases hnd'
+  -- the lane box contains the current box of the leaf, so the predicate holds on it
+  have hcont := (goodNode_semantic (boxLaws_field sq) q cur nd (hb pr.node nd hnd plive) pr.lane p bx hch hbx).1 hleaf pr hpr
+  have hpbx : pred bx = true := hm bx (cur pr.data) hcont hp
+  have hlive0 : Live q 0 := by
+    rcases h.root with h0 | ⟨_, hl⟩
+    · have := (Array.getElem?_eq_some_iff.mp hnd).1; omega
+    · exact hl
+  exact dfs_complete_forest _ pred hm _ (lanesOf_nested (boxLaws_field sq) q cur h hb fuel 0 hlive0) bx pr.data
+    (hin fuel hf) hpbx
+
+/-- overlap with a fixed query box is a monotone predicate: `intersect_aabb` is an instance of `traversal_complete` -/
+theorem boxIntersects_monotone (qb : Aabb3 K) :
+    letI := fieldNum K sq
+    C07.MonotonePred (fun a b : Aabb3 K => boxContains a b = true) (fun b => boxIntersects b qb) := by
+  letI := fieldNum K sq
+  intro a b hc hp
+  rw [boxContains_iff] at hc
+  simp only [boxIntersects, Bool.and_eq_true, decide_eq_true_eq] at hp ⊢
+  obtain ⟨⟨a1, a2, a3⟩, a4, a5, a6⟩ := hc
+  obtain ⟨⟨⟨⟨⟨p1, p2⟩, p3⟩, p4⟩, p5⟩, p6⟩ := hp
+  refine ⟨⟨⟨⟨⟨?_, ?_⟩, ?_⟩, ?_⟩, ?_⟩, ?_⟩ <;> linarith
+
+end traversal
 
 /-! ## Decided witnesses (exact rational arithmetic, kernel evaluation of the model) -/
 section examples
